@@ -287,9 +287,11 @@ func intRange(k reflect.Kind) (int64, int64) {
 	case reflect.Uint32:
 		return 0, 4294967295
 	case reflect.Uint, reflect.Uint64:
-		return 0, 9223372036854775807
+		return 0, 1 << 53
 	}
-	return -9223372036854775808, 9223372036854775807
+	// 64-bit kinds: the extremes stay exactly representable as float64 (pkg/util/jsontool.TrimNull
+	// round-trips the document through float64, larger magnitudes are rounded before the schema sees them)
+	return -(1 << 53), 1 << 53
 }
 
 func (g *Gen) intFor(k reflect.Kind, ti TagInfo) int64 {
@@ -378,6 +380,9 @@ func (g *Gen) Value(t reflect.Type, ti TagInfo, depth int) interface{} {
 	case reflect.Map:
 		n := []int{0, 1, 1, 2}[g.R.Intn(4)]
 		m := map[string]interface{}{}
+		if t.Key().Kind() != reflect.String {
+			return m // maps with non-string keys are only generated empty
+		}
 		for i := 0; i < n; i++ {
 			k := g.pick("X-Test", "x-id", "Content-Type", "a", "b", "p1", "id1", "example.com")
 			if t.Elem().Kind() == reflect.Ptr && g.chance(1, 40) {
